@@ -94,6 +94,10 @@ class Tr:
                 return f'((Int.natAbs {self.expr(a[0])} : Nat) : Int)' if self.ty == 'Int' else self.expr(a[0])
             if f in ('min', 'max') and len(a) == 2:
                 return f'({f} {self.expr(a[0])} {self.expr(a[1])})'
+            if f in ('min', 'max') and len(a) == 1 and self.ref(a[0]) is not None:
+                r = f'{f}_' + self.ref(a[0])                   # min(ids) / max(ids) of a collection -> parameter
+                self.params.add(r)
+                return r
             if f == 'len' and len(a) == 1 and self.ref(a[0]) is not None:
                 r = 'len_' + self.ref(a[0])
                 self.params.add(r)
@@ -118,6 +122,10 @@ class Tr:
             r = self.ref(e.left) + '_given'                      # `x is not None` -> x_given : Prop
             self.params.add(r)
             return r if isinstance(e.ops[0], ast.IsNot) else f'(¬ {r})'
+        if isinstance(e, ast.Compare) and len(e.ops) == 1 and isinstance(e.ops[0], (ast.In, ast.NotIn)) \
+                and isinstance(e.comparators[0], (ast.List, ast.Tuple)) and e.comparators[0].elts:
+            alts = ' ∨ '.join(f'{self.expr(e.left)} = {self.expr(c)}' for c in e.comparators[0].elts)   # membership in a literal list
+            return f'({alts})' if isinstance(e.ops[0], ast.In) else f'(¬ ({alts}))'
         if isinstance(e, ast.Compare):
             parts, left = [], e.left
             for op, right in zip(e.ops, e.comparators):
@@ -206,8 +214,9 @@ def _select(fn, sel):
         return hits[sel[2]]
     if sel[0] == 'subscript':
         # ('subscript', base name, nth, dimension, 'index' | 'lower' | 'upper')
-        hits = [n for n in ast.walk(fn) if isinstance(n, ast.Subscript) and isinstance(n.value, ast.Name)
-                and n.value.id == sel[1] and isinstance(n.ctx, ast.Load)]
+        hits = [n for n in ast.walk(fn) if isinstance(n, ast.Subscript) and isinstance(n.ctx, ast.Load)
+                and ((isinstance(n.value, ast.Name) and n.value.id == sel[1])
+                     or (isinstance(n.value, ast.Attribute) and n.value.attr == sel[1]))]      # x[...] or self.x[...]
         hits.sort(key=lambda n: (n.lineno, n.col_offset))
         if len(hits) <= sel[2]:
             raise TranslationError(f'subscript of {sel[1]} #{sel[2]} not found')
@@ -254,6 +263,10 @@ def _select(fn, sel):
         v = hits[sel[1]]
         if isinstance(v, ast.Call) and v.args and len(sel) > 2:
             return v.args[sel[2]]
+        if isinstance(v, ast.Tuple) and len(sel) > 2:
+            if len(v.elts) <= sel[2]:
+                raise TranslationError(f'return #{sel[1]} has no element {sel[2]}')
+            return v.elts[sel[2]]
         return v
     if sel[0] == 'versiongate':
         # ('versiongate', nth): the string S of the nth comparison `... > SeismicZfpVersion("S")`
@@ -396,6 +409,49 @@ SPEC = [
     ('reblock_i_count', 'conversion.py', 'SgzConverter.convert_to_adv_sgz', ('assign', 'i_count', 0), 'Nat'),
     ('reblock_last_xl', 'conversion.py', 'SgzConverter.convert_to_adv_sgz', ('ifassign', 'x_count', 0), 'Prop'),
     ('reblock_x_count', 'conversion.py', 'SgzConverter.convert_to_adv_sgz', ('assign', 'x_count', 0), 'Nat'),
+    ('rb_w_b0', 'conversion.py', 'SgzConverter.convert_to_adv_sgz', ('wslot', 'new_header', 0, 4), 'Nat'),
+    ('rb_w_b1', 'conversion.py', 'SgzConverter.convert_to_adv_sgz', ('wslot', 'new_header', 1, 4), 'Nat'),
+    ('rb_w_b2', 'conversion.py', 'SgzConverter.convert_to_adv_sgz', ('wslot', 'new_header', 2, 4), 'Nat'),
+    ('rb_w_data_blocks', 'conversion.py', 'SgzConverter.convert_to_adv_sgz', ('wslot', 'new_header', 3, 4), 'Nat'),
+    ('rb_b0', 'conversion.py', 'SgzConverter.convert_to_adv_sgz', ('assign_elt', 'new_blockshape', 0, 0), 'Nat'),
+    ('rb_b1', 'conversion.py', 'SgzConverter.convert_to_adv_sgz', ('assign_elt', 'new_blockshape', 0, 1), 'Nat'),
+    ('rb_b2', 'conversion.py', 'SgzConverter.convert_to_adv_sgz', ('assign_elt', 'new_blockshape', 0, 2), 'Nat'),
+    ('rb_data_blocks', 'conversion.py', 'SgzConverter.convert_to_adv_sgz', ('assign', 'compressed_data_length_diskblocks', 0), 'Nat'),
+    ('rb_inline_bytes', 'conversion.py', 'SgzConverter.convert_to_adv_sgz', ('assign', 'inline_bytes', 0), 'Nat'),
+    ('rb_tiles_i', 'conversion.py', 'SgzConverter.convert_to_adv_sgz', ('callarg', 'range', 0, 0), 'Nat'),
+    ('rb_tiles_x', 'conversion.py', 'SgzConverter.convert_to_adv_sgz', ('callarg', 'range', 1, 0), 'Nat'),
+    ('rb_depths', 'conversion.py', 'SgzConverter.convert_to_adv_sgz', ('callarg', 'range', 3, 0), 'Nat'),
+    ('rb_seek', 'conversion.py', 'SgzConverter.convert_to_adv_sgz', ('callarg', 'seek', 0, 0), 'Nat'),
+    ('rb_read_len', 'conversion.py', 'SgzConverter.convert_to_adv_sgz', ('callarg', 'read', 0, 0), 'Nat'),
+    ('rb_idx_lo', 'conversion.py', 'SgzConverter.convert_to_adv_sgz', ('callarg', 'slice', 0, 0), 'Nat'),
+    ('rb_idx_hi', 'conversion.py', 'SgzConverter.convert_to_adv_sgz', ('callarg', 'slice', 0, 1), 'Nat'),
+    ('rb_src_lo', 'conversion.py', 'SgzConverter.convert_to_adv_sgz', ('subscript', 'buffer', 0, 0, 'lower'), 'Nat'),
+    ('rb_src_hi', 'conversion.py', 'SgzConverter.convert_to_adv_sgz', ('subscript', 'buffer', 0, 0, 'upper'), 'Nat'),
+    # windowed conversion: the traces header detection looks at, the number of header slots
+    ('win_first_trace', 'conversion.py', 'SeismicFileConverter.get_blank_header_info', ('assign', 'first_trace', 0), 'Nat'),
+    ('win_last_trace', 'conversion.py', 'SeismicFileConverter.get_blank_header_info', ('assign', 'last_trace', 0), 'Nat'),
+    ('win_n_traces', 'conversion.py', 'SeismicFileConverter.get_blank_header_info', ('assign', 'n_traces', 1), 'Nat'),
+    ('hw_init_trace_a', 'headers.py', 'HeaderwordInfo.__init__', ('subscript', 'header', 0, 0, 'index'), 'Nat'),
+    ('hw_init_trace_b', 'headers.py', 'HeaderwordInfo.__init__', ('subscript', 'header', 1, 0, 'index'), 'Nat'),
+    ('hw_fl_first', 'headers.py', 'HeaderwordInfo._get_first_last_headers', ('subscript', 'header', 0, 0, 'index'), 'Nat'),
+    ('hw_fl_last', 'headers.py', 'HeaderwordInfo._get_first_last_headers', ('subscript', 'header', 1, 0, 'index'), 'Nat'),
+    ('hw_nonzero_trace', 'headers.py', 'HeaderwordInfo._get_nonzero_headerwords', ('subscript', 'header', 0, 0, 'index'), 'Nat'),
+    ('hw_dup_first', 'headers.py', 'HeaderwordInfo._find_duplicated_headerwords', ('subscript', 'header', 0, 0, 'index'), 'Nat'),
+    ('hw_dup_last', 'headers.py', 'HeaderwordInfo._find_duplicated_headerwords', ('subscript', 'header', 1, 0, 'index'), 'Nat'),
+    # cropping.py: the header words the cropper patches
+    ('cw_n_samples', 'cropping.py', 'SgzCropper.regenerate_header', ('wslot', 'header', 0, 4), 'Nat'),
+    ('cw_n_xl', 'cropping.py', 'SgzCropper.regenerate_header', ('wslot', 'header', 1, 4), 'Nat'),
+    ('cw_n_il', 'cropping.py', 'SgzCropper.regenerate_header', ('wslot', 'header', 2, 4), 'Nat'),
+    ('cw_z_start', 'cropping.py', 'SgzCropper.regenerate_header', ('wslot', 'header', 3, 4), 'Nat'),
+    ('cw_xl0', 'cropping.py', 'SgzCropper.regenerate_header', ('wslot', 'header', 7, 4), 'Nat'),
+    ('cw_il0', 'cropping.py', 'SgzCropper.regenerate_header', ('wslot', 'header', 8, 4), 'Nat'),
+    ('cw_data_blocks', 'cropping.py', 'SgzCropper.regenerate_header', ('wslot', 'header', 9, 4), 'Nat'),
+    ('cw_array_bytes', 'cropping.py', 'SgzCropper.regenerate_header', ('wslot', 'header', 10, 4), 'Nat'),
+    ('cw_tracecount', 'cropping.py', 'SgzCropper.regenerate_header', ('wslot', 'header', 11, 4), 'Nat'),
+    ('cw_len_z', 'cropping.py', 'SgzCropper.regenerate_header', ('assign', 'len_zslices', 0), 'Nat'),
+    ('cw_len_x', 'cropping.py', 'SgzCropper.regenerate_header', ('assign', 'len_xlines', 0), 'Nat'),
+    ('cw_len_i', 'cropping.py', 'SgzCropper.regenerate_header', ('assign', 'len_ilines', 0), 'Nat'),
+    ('cw_tracecount_structured', 'cropping.py', 'SgzCropper.regenerate_header', ('assign', 'tracecount', 0), 'Nat'),
     # conversion_utils.py: producers
     ('producer_last_set', 'conversion_utils.py', 'seismic_file_producer', ('ifassign', 'planes_to_read', 0), 'Prop'),
     ('producer_planes', 'conversion_utils.py', 'seismic_file_producer', ('assign', 'planes_to_read', 0), 'Nat'),
@@ -526,6 +582,24 @@ SPEC = [
     ('adv_rows', 'loader.py', 'SgzLoader3d._distribute_chunk_into_buffer', ('callarg', 'range', 0, 0), 'Nat'),
     ('adv_buf_start', 'loader.py', 'SgzLoader3d._distribute_chunk_into_buffer', ('assign', 'buf_start', 0), 'Nat'),
     ('adv_src_lo', 'loader.py', 'SgzLoader3d._distribute_chunk_into_buffer', ('subscript', 'temp_buf', 0, 0, 'lower'), 'Nat'),
+    # conversion.py: SEG-Y export -- where the copied SEG-Y file header is read, what segyio is asked for
+    ('export_ext_lo', 'conversion.py', 'SgzConverter.convert_to_segy', ('subscript', 'headerbytes', 0, 0, 'lower'), 'Nat'),
+    ('export_ext_hi', 'conversion.py', 'SgzConverter.convert_to_segy', ('subscript', 'headerbytes', 0, 0, 'upper'), 'Nat'),
+    ('export_ext_format', 'conversion.py', 'SgzConverter.convert_to_segy', ('callarg', 'unpack', 0, 0), 'String'),
+    ('export_ext_count', 'conversion.py', 'SgzConverter.convert_to_segy', ('assign_attr', 'ext_headers', 0), 'Int'),
+    ('export_fmt_lo', 'conversion.py', 'SgzConverter.convert_to_segy', ('subscript', 'headerbytes', 1, 0, 'lower'), 'Nat'),
+    ('export_fmt_hi', 'conversion.py', 'SgzConverter.convert_to_segy', ('subscript', 'headerbytes', 1, 0, 'upper'), 'Nat'),
+    ('export_fmt_format', 'conversion.py', 'SgzConverter.convert_to_segy', ('callarg', 'unpack', 1, 0), 'String'),
+    ('export_fmt_kept', 'conversion.py', 'SgzConverter.convert_to_segy', ('iftest', 1), 'Prop'),
+    ('export_filehdr_lo', 'conversion.py', 'SgzConverter.write_segy', ('subscript', 'headerbytes', 0, 0, 'lower'), 'Nat'),
+    ('export_filehdr_hi', 'conversion.py', 'SgzConverter.write_segy', ('subscript', 'headerbytes', 0, 0, 'upper'), 'Nat'),
+    # utils.py: axis inferred from the line numbers present (irregular surveys); the length check of every range read
+    ('infer_min', 'utils.py', 'InferredGeometry3d.get_range', ('return', 0, 0), 'Int'),
+    ('infer_max', 'utils.py', 'InferredGeometry3d.get_range', ('return', 0, 1), 'Int'),
+    ('infer_step', 'utils.py', 'InferredGeometry3d.get_range', ('return', 0, 2), 'Int'),
+    ('infer_stop_il', 'utils.py', 'InferredGeometry3d.__init__', ('callarg', '__init__', 0, 1), 'Int'),
+    ('infer_stop_xl', 'utils.py', 'InferredGeometry3d.__init__', ('callarg', '__init__', 0, 3), 'Int'),
+    ('range_short', 'utils.py', 'check_range_length', ('iftest', 0), 'Prop'),
     # sgzconstants.py
     ('const_disk_block', 'sgzconstants.py', '<module>', ('assign', 'DISK_BLOCK_BYTES', 0), 'Nat'),
     ('const_segy_file_header', 'sgzconstants.py', '<module>', ('assign', 'SEGY_FILE_HEADER_BYTES', 0), 'Nat'),
@@ -577,6 +651,8 @@ class Ev:
                 return int(self.val(a[0]))
             if f == 'abs':
                 return abs(self.val(a[0]))
+            if f in ('min', 'max') and len(a) == 1:
+                return self.env[f'{f}_' + self.tr.ref(a[0])]
             if f in ('min', 'max'):
                 return (min if f == 'min' else max)(self.val(a[0]), self.val(a[1]))
             if f == 'len':
@@ -595,6 +671,9 @@ class Ev:
             if len(e.ops) == 1 and isinstance(e.ops[0], (ast.Is, ast.IsNot)):
                 given = self.env[self.tr.ref(e.left) + '_given']
                 return given if isinstance(e.ops[0], ast.IsNot) else not given
+            if len(e.ops) == 1 and isinstance(e.ops[0], (ast.In, ast.NotIn)):
+                member = self.val(e.left) in [self.val(c) for c in e.comparators[0].elts]
+                return member if isinstance(e.ops[0], ast.In) else not member
             left, ok = self.val(e.left), True
             for op, right in zip(e.ops, e.comparators):
                 r = self.val(right)
